@@ -393,7 +393,11 @@ class Cursor:
         return src[2], names, [[i + 1] + list(r) for i, r in enumerate(rows)]
 
     def _select(self, ast, pos, named, outer):
-        _, distinct, items, sources, where, order = ast
+        _, distinct, items, sources, where, order, limit = ast
+        if limit is not None:
+            names, rows = self._select(ast[:6] + (None,), pos, named, outer)
+            n = self._value(limit, _Scope(outer), pos, named)
+            return names, rows[:n] if n >= 0 else rows
         srcs = [self._source_rows(s, pos, named, outer) for s in sources]
         ons = [s[3] for s in sources if s[3] is not None]
         # Nested-loop join.  The order of a join's output is unspecified in SQL; like SQLite's planner we drive
